@@ -13,6 +13,7 @@ HARNESSES = {
     'c07': dict(flavour='asan', srcs=['c07.cpp']),
     'c08': dict(flavour='asan', srcs=['c08.cpp']),
     'c18': dict(flavour='asan', srcs=['c18.cpp']),
+    'c10': dict(flavour='asan', srcs=['c10.cpp']),
 }
 
 PROPS = {
@@ -210,6 +211,25 @@ PROPS = {
         assumptions=['usage is page aligned and PSI is in the upstream format (kernels Senpai can run on)',
                      'nothing but senpai writes memory.high during the history'],
     ),
+    'C10': dict(
+        harness='c10', level='fault_enumeration',
+        quick=dict(shards=16, baselines=1, stride=3, gen_shards=8, n=60, size=100, timeout=170),
+        thorough=dict(shards=16, baselines=3, stride=1, gen_shards=16, n=4000, size=100, timeout=3000),
+        rule='baseline scenarios (3-level tree, 3 ticks, every core detector, the five kill plugins recursive and not, '
+             'kernelkill, dry, senpai in both modes, a ruleset-level cgroup, a prekill hook) under injected faults. '
+             'Enumerated per baseline: (A) 5 cgroup roles x 21 control files x {absent, empty, unreadable (read fails), '
+             'EACCES at open} x {from tick 0, from the kill tick}; (B) 6 host files x the same 4 modes x 2 timings and '
+             'every key of /proc/vmstat, /proc/meminfo and of each role\'s memory.stat removed; (C) directory entries '
+             'without d_type; (D) every index k of the kill tick\'s file-access sequence x 4 roles x {remove, remove and '
+             're-create} performed just before access k. Sampled: (E) rapidcheck combinations of 1-4 such faults over '
+             '200 baselines. Oracle: the run ends normally (no sanitizer / assertion report, no exception leaving '
+             'Oomd::run, all ticks executed) and the C01 containment invariants hold on the trace. Non-trivial = the '
+             'injected fault was actually hit (faulted file opened / access k existed); distinct by case hash. The quick '
+             'tier enumerates every 3rd case of one baseline.',
+        assumptions=['reads inside stdio / glob are not interposable: "unreadable" is produced by substituting a directory '
+                     'at open time (read fails with EISDIR) or EACCES at open',
+                     'a fault from tick 0 may make plugin init fail; a clean rejection is accepted'],
+    ),
 }
 
 
@@ -239,5 +259,27 @@ def run_generic(r, spec, tier):
     agg = r.campaign(spec['harness'], 'main', tier['shards'], tier['n'], tier['size'],
                      extra_env=spec.get('env'), timeout=tier.get('timeout'))
     cov = cov_from(agg)
+    cov['replayed'] = nrep
+    return cov
+
+
+def run_C10(r, spec, tier):
+    nrep = r.replay_tier(spec['harness'])
+    env = {'VP_C10_BASELINES': str(tier['baselines']), 'VP_STRIDE': str(tier['stride'])}
+    enum = r.enumerate(spec['harness'], 'enum', tier['shards'], extra_env=env, timeout=tier.get('timeout'))
+    agg = r.campaign(spec['harness'], 'multi', tier['gen_shards'], tier['n'], tier['size'])
+    cov = cov_from(agg)
+    cov['evaluations'] += enum['evaluations']
+    cov['distinct_nontrivial'] = len(agg['hashes'] | enum['hashes'])
+    cov['enumerated'] = dict(cases_run=enum['evaluations'], total_cases_per_stride_1=enum['total_cases'],
+                             stride=tier['stride'], baselines=tier['baselines'], completed=enum['completed'],
+                             labels=enum['labels'])
+    cov['exhaustive'] = bool(enum['completed'] and tier['stride'] == 1)
+    if not enum['completed']:
+        r.notes.append('enumeration did not finish within its time budget (inconclusive part)')
+        r.inconclusive += 1
+    cov['samples'] = (enum['samples'] + cov['samples'])[:3]
+    for k, v in enum['labels'].items():
+        cov['labels'][k] = cov['labels'].get(k, 0) + v
     cov['replayed'] = nrep
     return cov
